@@ -136,6 +136,10 @@ class C11:
                 if chain:
                     iq = s.add("getsec", 1, hx(pre))
                     queries.append(("sec", iq, handle if ok else 0, pre, cl + (["steps>=2"] if len(chain) > 1 else [])))
+                    if "index" in cl and ok:
+                        s.add("errno", 34)          # ERANGE left behind by some earlier call
+                        iq = s.add("getsec", 1, hx(pre))
+                        queries.append(("sec", iq, handle, pre, cl + ["ambient-errno"]))
                     if ok:
                         for bad, bc in ((pre + "|", "trailing-separator"), ("|" + pre, "leading-separator"), (pre + "=", "stray-equal") if "=" not in pre.split("|")[-1] else (pre + "|=", "stray-equal")):
                             ib = s.add("getsec", 1, hx(bad))
